@@ -217,11 +217,12 @@ theorem polyEnergy_congr_labels (x y : Label → Rat) (l : List (LTerm × Rat)) 
     product variable equals its product there is an assignment differing only on the auxiliaries the code
     created at which the BQM has exactly the polynomial's energy; and at *every* ±1 assignment the BQM is
     at least the reduced polynomial (`make_quadratic_energy_spin` + `penSumS_bounds`) -/
-theorem makeQuadratic_spin_exact (strength : Rat) (raw : List (List Label × Rat)) (choices : List Pair)
+theorem makeQuadratic_spin_exact (reserved : List Label) (strength : Rat) (raw : List (List Label × Rat)) (choices : List Pair)
     (bag : List (PTerm Label)) (st : BK) (auxs : List Label)
-    (h : makeQuadratic .spin strength raw choices = some (bag, st, auxs)) (hch : ∀ c ∈ choices, c.1 ≠ c.2)
+    (h : makeQuadratic reserved .spin strength raw choices = some (bag, st, auxs)) (hch : ∀ c ∈ choices, c.1 ≠ c.2)
     (x : Label → Rat) (hx : Spin01 x) (hc : ∀ c ∈ st.constraints, x c.2 = x c.1.1 * x c.1.2) :
-    ∃ x', Spin01 x' ∧ (∀ l, l ∉ auxs → x' l = x l) ∧ evalBag x' bag = polyEnergy x (normPoly .spin raw) := by
+    ∃ x', Spin01 x' ∧ (∀ l, l ∉ auxs → x' l = x l) ∧ evalBag x' bag = polyEnergy x (normPoly .spin raw)
+      ∧ (∀ a ∈ auxs, a ∉ reserved) := by
   have hsrc := h
   unfold makeQuadratic at h
   split at h
@@ -242,21 +243,22 @@ theorem makeQuadratic_spin_exact (strength : Rat) (raw : List (List Label × Rat
           | cons a r => rw [hi] at hidx; simp at hidx
         -- invariants of the run
         have hok := normPoly_ok .spin raw
-        have hpv := polyVars_mem (normPoly .spin raw)
-        have hrun0 := runInv_init (normPoly .spin raw) (polyVars (normPoly .spin raw)) hok hpv
+        have hpv : ∀ tb ∈ normPoly .spin raw, ∀ w ∈ tb.1, w ∈ polyVars (normPoly .spin raw) ++ reserved :=
+          fun tb htb w hw => List.mem_append_left _ (polyVars_mem (normPoly .spin raw) tb htb w hw)
+        have hrun0 := runInv_init (normPoly .spin raw) (polyVars (normPoly .spin raw) ++ reserved) hok hpv
         have hlab := labInv_fold choices _ _ hrun0 _ (labInv_init _ _ hpv) hch s hs
         -- freshness of the auxiliaries
-        have haux := penaltyBags_aux_fresh strength (polyVars (normPoly .spin raw) ++ s.constraints.map (·.2)) s.constraints
+        have haux := penaltyBags_aux_fresh strength (polyVars (normPoly .spin raw) ++ reserved ++ s.constraints.map (·.2)) s.constraints
         rw [ha] at haux
-        have hvars : s.vars = polyVars (normPoly .spin raw) ++ s.constraints.map (·.2) := hlab.vars
+        have hvars : s.vars = polyVars (normPoly .spin raw) ++ reserved ++ s.constraints.map (·.2) := hlab.vars
         have hauxv : ∀ a ∈ auxs, a ∉ s.vars := by intro a ha'; rw [hvars]; exact haux.2 a ha'
         have hlen : auxs.length = s.constraints.length := by rw [← ha]; exact penaltyBags_aux_length _ _ _
         obtain ⟨x', hx', hoff, hzero⟩ := penSumS_zero_of_consistent s.constraints auxs hlen haux.1
           (fun c hc' => by
             have := hlab.cons c hc'
             exact ⟨fun hm => hauxv _ hm this.1, fun hm => hauxv _ hm this.2.1, fun hm => hauxv _ hm this.2.2⟩) x hx hc
-        refine ⟨x', hx', hoff, ?_⟩
-        have he := (Red.penaltyBags_spin_eval x' strength (polyVars (normPoly .spin raw) ++ s.constraints.map (·.2)) s.constraints)
+        refine ⟨x', hx', hoff, ?_, fun a ha' hr => haux.2 a ha' (by simp [hr])⟩
+        have he := (Red.penaltyBags_spin_eval x' strength (polyVars (normPoly .spin raw) ++ reserved ++ s.constraints.map (·.2)) s.constraints)
         rw [← hb, evalBag_append, he, ha, hzero, objectiveBag_eval x' _ _ hobj]
         -- the reduced terms do not mention the auxiliaries
         have hred : polyEnergy x' s.reduced = polyEnergy x s.reduced := by
